@@ -158,7 +158,8 @@ class Check:
         blob = json.dumps(jsonable(payload), sort_keys=True)
         h = hashlib.sha1((key + blob).encode()).hexdigest()[:12]
         path = os.path.join(REPLAY_DIR, "%s-%s.json" % (self.pid, h))
-        if len(self.violations) < 25:
+        first_of_key = key not in {k for k, _, _ in self.violations}
+        if first_of_key and len({k for k, _, _ in self.violations}) < 60:
             with open(path, "w") as f:
                 json.dump({"property": self.pid, "key": key, "what": what,
                            "payload": jsonable(payload)}, f, indent=1)
